@@ -137,6 +137,53 @@ class Gen:
         self.action_scripts = [self.add_script('action') for _ in range(2)] if self.feats['clean'] else []
         self.closure_scripts = [self.add_script('closure') for _ in range(2)] if self.feats['weak'] else []
 
+    def structured_prelude(self, main):
+        """A directed scenario: a traced cycle of 2-4 objects, some of whose finalizers resurrect a
+        neighbour into a global; optionally a first collection (so that some members are already
+        finalized survivors), fresh members spliced in, then everything released and collected
+        twice.  Buffer order (hence the collector's list order) is randomised."""
+        r = self.rng
+        if not self.feats['fin']:
+            return
+        # class R: one traced field, finalizer stores the neighbour in s5; class Q: same shape, no finalizer
+        self.scripts.append(('fin', ['clone f0 s5']))
+        rs = len(self.scripts) - 1
+        self.classes.append(dict(nf=1, traced='1', nw=1 if self.feats['weak'] else 0, cleaner=0, fin=str(rs), drop='-'))
+        R = len(self.classes) - 1
+        self.classes.append(dict(nf=1, traced='1', nw=0, cleaner=0, fin='-', drop='-'))
+        Q = len(self.classes) - 1
+        n = r.choice([2, 2, 3, 4])
+        kinds = [r.choice([R, R, Q]) for _ in range(n)]
+        for i, k in enumerate(kinds):
+            main.append(f'new s{i} {k}')
+        for i in range(n):
+            main.append(f'clone s{(i + 1) % n} a{i}.0')
+        order = list(range(n)); r.shuffle(order)
+        if r.random() < 0.6:
+            # first round: release, collect (finalizers run, something may be resurrected into s5)
+            for i in order:
+                main.append(f'drop s{i}')
+            main.append('collect')
+            main.append('obs s5')
+            # splice a fresh member in front of the survivor and release again
+            k = r.choice([R, R, Q])
+            main.append(f'new s0 {k}')
+            main.append('clone a5.0 a0.0')      # fresh.f0 = survivor.f0
+            main.append('clone s0 a5.0')        # survivor.f0 = fresh
+            if r.random() < 0.5:
+                main.append('drop s0'); main.append('drop s5')
+            else:
+                main.append('drop s5'); main.append('drop s0')
+        else:
+            for i in order:
+                main.append(f'drop s{i}')
+        if r.random() < 0.3:
+            main.append(f"arm {r.choice(['fin', 'drop', 'trace'])} {r.choice([1, 2, 3])}")
+        main.append('collect'); main.append('obs s5'); main.append('obs a5.0'); main.append('sobs')
+        main.append('collect'); main.append('obs s5'); main.append('sobs')
+        if r.random() < 0.5:
+            main.append('drop s5'); main.append('collect'); main.append('sobs')
+
     # ---- main program
     def program(self):
         r = self.rng
@@ -146,6 +193,9 @@ class Gen:
         main = []
         if not self.auto and self.feats['auto']:
             main.append('cfgauto 0')
+        if self.profile in ('fin', 'all', 'faults', 'weak') and r.random() < (0.5 if self.profile == 'fin' else 0.2):
+            self.structured_prelude(main)
+            occ[5] = True
         n = r.randint(*self.size)
         ncls = len(self.classes)
         w = dict(self.w)
